@@ -668,6 +668,10 @@ func (d *driver) runTrace(id int, length int) {
 
 func main() {
 	klog.SetOutput(io.Discard)
+	kfs := flag.NewFlagSet("klog", flag.ContinueOnError)
+	klog.InitFlags(kfs)
+	_ = kfs.Set("logtostderr", "false")
+	_ = kfs.Set("stderrthreshold", "FATAL")
 	seed := flag.Int64("seed", 1, "random seed")
 	n := flag.Int("n", 50, "number of traces")
 	length := flag.Int("len", 25, "operations per trace")
